@@ -6,17 +6,25 @@ From RV.Proofs Require Import FixProofs.
 Open Scope N_scope.
 
 (* (a) whenever the value analysis returns, its result satisfies the equations with all
-   predecessors - unless the run was a no-op (its very first sweep changed nothing), in which
-   case every fact is exactly what it was before *)
+   predecessors.  Unconditional since the fix of `avail_sweep` (a node seen for the first time counts
+   as a change; Rust: `changed |= visited.insert(node)` in AvailableValuePass::run).  Before, the
+   statement needed the disjunct `\/ same_avail_facts g g'`: a run whose very first sweep changed no
+   fact was a no-op and stopped at once, although the predecessors placed AFTER a node had not been
+   taken into account in that sweep (only visited predecessors are met).  That disjunct was the trace of
+   a defect.  Witness: a function with two returns, the second placed after the first; after
+   FunctionMarkupPass had added the edge from the converted return to the exit, the second value
+   analysis changed nothing in its first sweep and stopped, so the exit kept facts that hold on one path
+   only. *)
 Definition C12_avail_statement : Prop :=
-  forall g g', avail_pass g = Ok g' -> AvailEqns g' \/ same_avail_facts g g'.
+  forall g g', avail_pass g = Ok g' -> AvailEqns g'.
 Theorem C12_avail_fix : C12_avail_statement.
-Proof. exact avail_fix. Qed.
+Proof. exact avail_fix_full. Qed.
 Check C12_avail_fix : C12_avail_statement.
 Print Assumptions C12_avail_fix.
 
-(* on a graph whose facts are all empty and whose first node is the program entry (every graph the
-   pipeline starts from) the run is never a no-op *)
+(* the instance for a graph whose facts are all empty and whose first node is the program entry (every
+   graph the pipeline starts from); before the fix this was the only unconditional statement: on such a
+   graph the first sweep changes the program entry, so the run was never a no-op *)
 Definition fresh_avail (g : cfg) : Prop :=
   (exists c rest, gnodes g = c :: rest /\ is_program_entry (cn c) = true) /\
   forall i c, nth_opt (gnodes g) i = Some c -> rin c = [] /\ rout c = [] /\ min c = [] /\ mout c = [].
